@@ -40,7 +40,25 @@ type c13In struct {
 	WS     bool       `json:"ws,omitempty"`    // WebSocket transport (ws://) against an RFC 7395 server: terms drop / serr, refusal windows, transient / permanent failures
 }
 
-func c13Cut(f string) bool { return f == "transientdrop" || f == "cutfeatures" || f == "cutproceed" }
+// c13DropsSession: failures after which NewSession returns no Session object at all (the early failures: first
+// features not read, TLS not negotiated): the client forgets its stream-management state with it, so the next
+// successful attempt cannot resume and binds afresh.
+func c13DropsSession(f string) bool { return f == "cutfeatures" || f == "cutproceed" }
+
+// c13Resumes: whether the successful attempt of a round resumes the stream-managed session.
+func c13Resumes(in c13In, rd c13Round) bool {
+	if !rd.Resume || !in.SM {
+		return false
+	}
+	for _, f := range rd.Fails {
+		if c13DropsSession(f) {
+			return false
+		}
+	}
+	return true
+}
+
+func c13IsCut(f string) bool { return f == "transientdrop" || f == "cutfeatures" || f == "cutproceed" }
 
 type c13 struct{}
 
@@ -188,7 +206,7 @@ func (c13) Input(inp interface{}) Sx {
 				}
 				att(1)
 			}
-			if rd.Resume {
+			if c13Resumes(in, rd) {
 				att(4)
 			} else {
 				att(3)
@@ -269,8 +287,11 @@ func c13Scripts(in c13In) (scripts []connScript, good map[int]bool, resumed map[
 			if f == "permanent" {
 				return
 			}
+			if c13DropsSession(f) {
+				curID = "" // nothing to resume any more: the client will not even ask
+			}
 		}
-		res := rd.Resume && in.SM && curID != ""
+		res := c13Resumes(in, rd) && curID != ""
 		add(goodConn(res), true, res)
 	}
 	return
@@ -519,18 +540,24 @@ func (s *c13WS) listenerUp() error {
 	}
 	return fmt.Errorf("cannot listen on %s again", s.addr)
 }
-func (s *c13WS) cut(fin bool) {
+// cut ends the TCP connections accepted so far (fin: orderly, else reset); the caller may have taken the list earlier
+func (s *c13WS) take() []net.Conn {
 	s.mu.Lock()
 	defer s.mu.Unlock()
-	for _, c := range s.raw {
+	l := s.raw
+	s.raw = nil
+	return l
+}
+func c13Cut(l []net.Conn, fin bool) {
+	for _, c := range l {
 		if tc, ok := c.(*net.TCPConn); ok && !fin {
 			tc.SetLinger(0)
 		}
 		c.Close()
 	}
-	s.raw = nil
 }
 func (s *c13WS) terminate(conn int, how string) {
+	old := s.take() // the client reconnects at once: connections accepted from here on are not to be touched
 	if how == "serr" {
 		s.mu.Lock()
 		c := s.ws[conn]
@@ -540,10 +567,10 @@ func (s *c13WS) terminate(conn int, how string) {
 			c.Write(s.ctx, websocket.MessageText, []byte("<close xmlns='urn:ietf:params:xml:ns:xmpp-framing'/>"))
 			time.Sleep(10 * time.Millisecond)
 		}
-		s.cut(true)
+		c13Cut(old, true)
 		return
 	}
-	s.cut(false)
+	c13Cut(old, false)
 }
 func (s *c13WS) probe(conn int, id string) {
 	s.mu.Lock()
@@ -556,7 +583,7 @@ func (s *c13WS) probe(conn int, id string) {
 func (s *c13WS) shutdown() {
 	s.listenerDown()
 	s.cancel()
-	s.cut(false)
+	c13Cut(s.take(), false)
 }
 func (s *c13WS) result() (sessions, resumed, extra int) {
 	s.mu.Lock()
@@ -701,7 +728,7 @@ func (c13) Run(inp interface{}) Sx {
 			}
 			for _, f := range rd.Fails {
 				connIdx++
-				if c13Cut(f) {
+				if c13IsCut(f) {
 					// a cut connection keeps Transport.Close waiting for ConnectTimeout (1 s): give a
 					// second, concurrent retry loop (if the code starts one) the time to show itself
 					settle = 1600 * time.Millisecond
@@ -808,7 +835,7 @@ func (c13) Oracle(inp interface{}, obs Sx) (string, string) {
 				break
 			}
 			want++
-			if rd.Resume && in.SM {
+			if c13Resumes(in, rd) {
 				wantRes++
 			}
 		}
